@@ -18,8 +18,9 @@ pub mod c16;
 pub mod c17;
 pub mod c18;
 pub mod c19;
+pub mod c20;
 
-pub const PROPS: [&str; 18] = ["C01", "C02", "C03", "C04", "C05", "C06", "C07", "C08", "C09", "C10", "C11", "C12", "C13", "C14", "C16", "C17", "C18", "C19"];
+pub const PROPS: [&str; 19] = ["C01", "C02", "C03", "C04", "C05", "C06", "C07", "C08", "C09", "C10", "C11", "C12", "C13", "C14", "C16", "C17", "C18", "C19", "C20"];
 
 pub fn lanes(prop: &str) -> Vec<Lane> {
     match prop {
@@ -41,6 +42,7 @@ pub fn lanes(prop: &str) -> Vec<Lane> {
         "C17" => c17::lanes(),
         "C18" => c18::lanes(),
         "C19" => c19::lanes(),
+        "C20" => c20::lanes(),
         _ => vec![],
     }
 }
